@@ -956,6 +956,34 @@ impl Session {
         result
     }
 
+    /// Run a transport write/flush, but give up as soon as the session is closed.
+    ///
+    /// A write to a stalled peer can stay pending indefinitely while holding the
+    /// writer lock; close() needs that lock to shut the transport down. Closing the
+    /// session therefore cancels the pending operation, which releases the lock.
+    async fn io_unless_closed<F>(&self, op: F) -> std::io::Result<()>
+    where
+        F: std::future::Future<Output = std::io::Result<()>>,
+    {
+        let closed = self.close_notify.notified();
+        tokio::pin!(closed);
+        closed.as_mut().enable();
+        if self.is_closed() {
+            return Err(std::io::Error::new(
+                std::io::ErrorKind::BrokenPipe,
+                "session closed",
+            ));
+        }
+        tokio::select! {
+            biased;
+            result = op => result,
+            _ = &mut closed => Err(std::io::Error::new(
+                std::io::ErrorKind::BrokenPipe,
+                "session closed during write",
+            )),
+        }
+    }
+
     /// Write buffer to connection with padding applied
     async fn write_with_padding(&self, mut buffer: BytesMut) -> Result<()> {
         use crate::padding::CHECK_MARK;
@@ -970,11 +998,11 @@ impl Session {
             #[cfg(feature = "verif")]
             crate::verif::sched_point("wp_before_writer_lock").await;
             let mut writer = self.writer.lock().await;
-            if let Err(e) = writer.write_all(&buffer).await {
+            if let Err(e) = self.io_unless_closed(writer.write_all(&buffer)).await {
                 drop(writer);
                 return Err(self.handle_io_error("write_without_padding", e).await);
             }
-            if let Err(e) = writer.flush().await {
+            if let Err(e) = self.io_unless_closed(writer.flush()).await {
                 drop(writer);
                 return Err(self.handle_io_error("flush_without_padding", e).await);
             }
@@ -1004,11 +1032,11 @@ impl Session {
             #[cfg(feature = "verif")]
             crate::verif::sched_point("wp_before_writer_lock").await;
             let mut writer = self.writer.lock().await;
-            if let Err(e) = writer.write_all(&buffer).await {
+            if let Err(e) = self.io_unless_closed(writer.write_all(&buffer)).await {
                 drop(writer);
                 return Err(self.handle_io_error("write_no_padding_stop", e).await);
             }
-            if let Err(e) = writer.flush().await {
+            if let Err(e) = self.io_unless_closed(writer.flush()).await {
                 drop(writer);
                 return Err(self.handle_io_error("flush_no_padding_stop", e).await);
             }
@@ -1023,11 +1051,11 @@ impl Session {
             #[cfg(feature = "verif")]
             crate::verif::sched_point("wp_before_writer_lock").await;
             let mut writer = self.writer.lock().await;
-            if let Err(e) = writer.write_all(&buffer).await {
+            if let Err(e) = self.io_unless_closed(writer.write_all(&buffer)).await {
                 drop(writer);
                 return Err(self.handle_io_error("write_no_padding_sizes", e).await);
             }
-            if let Err(e) = writer.flush().await {
+            if let Err(e) = self.io_unless_closed(writer.flush()).await {
                 drop(writer);
                 return Err(self.handle_io_error("flush_no_padding_sizes", e).await);
             }
@@ -1073,7 +1101,10 @@ impl Session {
                         &buffer[..7]
                     );
                 }
-                if let Err(e) = writer.write_all(&buffer[..size]).await {
+                if let Err(e) = self
+                    .io_unless_closed(writer.write_all(&buffer[..size]))
+                    .await
+                {
                     drop(writer);
                     return Err(self.handle_io_error("write_padding_split_payload", e).await);
                 }
@@ -1087,7 +1118,7 @@ impl Session {
                     put_waste_frames(&mut buffer, padding_len);
                 }
 
-                if let Err(e) = writer.write_all(&buffer).await {
+                if let Err(e) = self.io_unless_closed(writer.write_all(&buffer)).await {
                     drop(writer);
                     return Err(self.handle_io_error("write_padding_payload_frame", e).await);
                 }
@@ -1097,7 +1128,10 @@ impl Session {
                 let mut padding_frame = BytesMut::with_capacity(HEADER_OVERHEAD_SIZE + size);
                 put_waste_frames(&mut padding_frame, size);
 
-                if let Err(e) = writer.write_all(&padding_frame).await {
+                if let Err(e) = self
+                    .io_unless_closed(writer.write_all(&padding_frame))
+                    .await
+                {
                     drop(writer);
                     return Err(self.handle_io_error("write_padding_frame_only", e).await);
                 }
@@ -1110,14 +1144,14 @@ impl Session {
                 "[Session] write_with_padding: Writing {} remaining payload bytes",
                 buffer.len()
             );
-            if let Err(e) = writer.write_all(&buffer).await {
+            if let Err(e) = self.io_unless_closed(writer.write_all(&buffer)).await {
                 drop(writer);
                 return Err(self.handle_io_error("write_remaining_payload", e).await);
             }
         }
 
         tracing::trace!("[Session] write_with_padding: Flushing writer");
-        if let Err(e) = writer.flush().await {
+        if let Err(e) = self.io_unless_closed(writer.flush()).await {
             drop(writer);
             return Err(self.handle_io_error("flush_with_padding", e).await);
         }
